@@ -95,13 +95,20 @@ UsesFact(b) == \E t \in Terms(b) : t.base = "invfact"
 Dim(b) == Len(b.comps)
 
 (* ------------------------------------------------------------------ limits
-   [k |-> "int" | "plusx" | "plusc" | "half" | "cplx" | "pinf" | "ninf" | "blank", n |-> integer]
-   int: n   plusx: n + x   plusc: n + c   half: n + 1/2   cplx: n + i   pinf/ninf: +-infty *)
+   [k |-> "int" | "plusx" | "plusc" | "half" | "cplx" | "pinf" | "ninf" | "blank" | "qbelow" | "qabove", n |-> integer]
+   int: n   plusx: n + x   plusc: n + c   half: n + 1/2   cplx: n + i   pinf/ninf: +-infty
+   qbelow / qabove: the integer n written as a quotient or product of decimal numbers that is not exact in binary
+   floating point (0.3/0.1, 2.1/0.7, ...): mathematically the limit IS the integer n, numerically it lands a rounding
+   error below / above n.  Two readings are allowed for such a limit, and only these: it is the integer n (exact
+   reading), or it is refused as "not an integer" (strict reading, a floating-point artefact).  Taking it for a
+   neighbouring integer is neither. *)
+InexactKinds == {"qbelow", "qabove"}
 LimVal(l, env, role) ==
   CASE l.k = "int" -> [t |-> "int", v |-> l.n]
     [] l.k = "plusx" -> (LET q == QAdd(env.x, QInt(l.n)) IN IF q[2] = 1 THEN [t |-> "int", v |-> q[1]] ELSE [t |-> "nonint"])
     [] l.k = "plusc" -> (IF role = "student" THEN [t |-> "ivar"]
                          ELSE LET q == QAdd(env.c, QInt(l.n)) IN IF q[2] = 1 THEN [t |-> "int", v |-> q[1]] ELSE [t |-> "nonint"])
+    [] l.k \in InexactKinds -> [t |-> "int", v |-> l.n]
     [] l.k = "half" -> [t |-> "nonint"]
     [] l.k = "cplx" -> [t |-> "complex"]
     [] l.k = "pinf" -> [t |-> "pinf"]
@@ -122,17 +129,19 @@ SumOf(body, idx, env) == FoldSet(LAMBDA m, acc : VAdd(acc, BodyAt(body, m, env))
    sum  [lower, upper (limits), body, var (name, "" = blank)]
    cfg  [evenOdd, cut, cutFact, xs (samples of x), cval (value of c at every sample), vars, ivars, tol]
    role "author" | "student": the instructor-only variables exist for the author only *)
+HasInexact(sum) == sum.lower.k \in InexactKinds \/ sum.upper.k \in InexactKinds
+Readings(sum) == IF HasInexact(sum) THEN {FALSE, TRUE} ELSE {FALSE}          \* strict?
 CutFor(sum, cfg) == IF UsesFact(sum.body) THEN cfg.cutFact ELSE cfg.cut
 IfSet(cond, name) == IF cond THEN {name} ELSE {}
 
-Faults(sum, cfg, env, role) ==
+Faults(sum, cfg, env, role, strict) ==
   LET lo == LimVal(sum.lower, env, role)
       hi == LimVal(sum.upper, env, role)
       b == sum.body
       meaning == KnownConstants \cup KnownFunctions \cup cfg.vars \cup (IF role = "author" THEN cfg.ivars ELSE {})
   IN IfSet(lo.t = "blank" \/ hi.t = "blank" \/ b.blank \/ sum.var = "", "blank")
      \cup IfSet(sum.var \in meaning, "variable_has_meaning")
-     \cup IfSet(lo.t = "nonint" \/ hi.t = "nonint", "noninteger_limit")
+     \cup IfSet(lo.t = "nonint" \/ hi.t = "nonint" \/ (strict /\ HasInexact(sum)), "noninteger_limit")
      \cup IfSet(lo.t = "complex" \/ hi.t = "complex", "complex_limit")
      \cup IfSet(lo.t = "ivar" \/ hi.t = "ivar" \/ (~b.blank /\ role = "student" /\ UsesC(b)), "instructor_variable")
      \cup IfSet(~b.blank /\ UsesIndex(b) /\ b.v # sum.var, "unknown_variable")
@@ -156,9 +165,9 @@ Unspecified(sum, cfg, env, role) ==
      \/ ~b.blank /\ IsRange(lo) /\ IsRange(hi) /\ UsesFact(b)
           /\ \E m \in Index(lo, hi, cfg.evenOdd, cut) : Inner(b, m) < 0 \/ Inner(b, m) > 12
 
-Outcome(sum, cfg, env, role) ==
+Outcome(sum, cfg, env, role, strict) ==
   IF Unspecified(sum, cfg, env, role) THEN [k |-> "unspecified"]
-  ELSE LET f == Faults(sum, cfg, env, role) IN
+  ELSE LET f == Faults(sum, cfg, env, role, strict) IN
        IF f # {} THEN [k |-> "error", why |-> f]
        ELSE LET idx == Index(LimVal(sum.lower, env, role), LimVal(sum.upper, env, role), cfg.evenOdd, CutFor(sum, cfg))
             IN [k |-> "value", v |-> SumOf(sum.body, idx, env), terms |-> Cardinality(idx)]
@@ -187,9 +196,10 @@ Within3(a, s, tol) ==
 Classes == {"correct", "incorrect", "student_err", "config_err"}
 EnvAt(cfg, s) == [x |-> cfg.xs[s], c |-> cfg.cval]
 \* outcomes at samples s, s+1, ... as a sequence (a sequence is evaluated once; a function would be re-evaluated)
-RECURSIVE Outcomes(_, _, _, _)
-Outcomes(sum, cfg, role, s) == IF s > Len(cfg.xs) THEN <<>>
-                               ELSE <<Outcome(sum, cfg, EnvAt(cfg, s), role)>> \o Outcomes(sum, cfg, role, s + 1)
+RECURSIVE Outcomes(_, _, _, _, _)
+Outcomes(sum, cfg, role, strict, s) ==
+  IF s > Len(cfg.xs) THEN <<>>
+  ELSE <<Outcome(sum, cfg, EnvAt(cfg, s), role, strict)>> \o Outcomes(sum, cfg, role, strict, s + 1)
 RECURSIVE Withins(_, _, _, _)
 Withins(A, S, tol, s) == IF s > Len(A) THEN <<>> ELSE <<Within3(A[s].v, S[s].v, tol)>> \o Withins(A, S, tol, s + 1)
 
@@ -208,7 +218,13 @@ Verdict(A, S, cfg, dim) ==
           ELSE IF \E s \in 1..n : W[s] = "out" THEN {"incorrect"}
           ELSE {"correct", "incorrect"}
 
-Grade(aut, stu, cfg) == Verdict(Outcomes(aut, cfg, "author", 1), Outcomes(stu, cfg, "student", 1), cfg, Dim(aut.body))
+\* every combination of readings of inexactly written integer limits (one reading per summation) is allowed
+Grade(aut, stu, cfg) ==
+  UNION {Verdict(Outcomes(aut, cfg, "author", ra, 1), Outcomes(stu, cfg, "student", rs, 1), cfg, Dim(aut.body)) :
+           ra \in Readings(aut), rs \in Readings(stu)}
+\* the same summation with its inexactly written limits written as plain integers
+ExactLim(l) == IF l.k \in InexactKinds THEN [l EXCEPT !.k = "int"] ELSE l
+Exactly(sum) == [sum EXCEPT !.lower = ExactLim(sum.lower), !.upper = ExactLim(sum.upper)]
 
 (* ------------------------------------------------------------------ which boxes the student fills in
    P: the set of fields entered by the student; the others are taken from the author's answer.
